@@ -12,10 +12,15 @@ ap.add_argument('-j', type=int, default=8)
 ap.add_argument('--files', default='')
 ap.add_argument('--out', default='')
 ap.add_argument('--limit', type=int, default=0)
+ap.add_argument('--recheck', default='', help='a previous --out file: re-run the checks on its uncaught rows only (tests are not re-run)')
 a = ap.parse_args()
 env = dict(os.environ, GOFLAGS='-mod=mod', GOPROXY='off', GOSUMDB='off', GOTOOLCHAIN='local')
 env.pop('GOWORK', None)
 muts = [json.loads(l) for l in subprocess.run([os.path.join(here, 'bin', 'mutgen'), repo], capture_output=True, text=True).stdout.splitlines() if l.strip()]
+recheck = False
+if a.recheck:
+    muts = [r for r in json.load(open(a.recheck)) if r['status'] == 'uncaught']
+    recheck = True
 if a.files:
     subs = a.files.split(',')
     muts = [m for m in muts if any(s in m['file'] for s in subs)]
@@ -35,11 +40,15 @@ def run(m):
         if subprocess.run(['go', 'build', './...'], cwd=dst, env=env, capture_output=True).returncode != 0:
             return m, 'nobuild', ''
         try:
+            if recheck:
+                raise StopIteration
             t = subprocess.run(['go', 'test', '-vet=off', '-count=1', '-timeout', '120s', './...'], cwd=dst, env=env, capture_output=True, text=True, timeout=400)
             if t.returncode != 0:
                 return m, 'killed-by-tests', ''
         except subprocess.TimeoutExpired:
             return m, 'killed-by-tests', 'timeout'
+        except StopIteration:
+            pass
         r = subprocess.run([os.path.join(here, 'bin', 'vipcheck'), '-repo', dst, '-prop', 'all', '-evidence', os.path.join(tmp, 'ev'), '-reports', os.path.join(tmp, 'rep'), '-known', os.path.join(here, 'known-findings.txt')], capture_output=True, text=True, env=env)
         fired = sorted({l.split()[1].split('.')[0] for l in r.stdout.splitlines() if l.startswith(('VIOLATED ', 'UNDECIDED '))})
         return m, ('caught' if r.returncode == 1 else 'uncaught'), ','.join(fired)
